@@ -341,4 +341,14 @@ Proof.
   exact (proj2 (analyze_d_ts gen_basis cfg k dedup HN PosTG table_facts_G (eval_facts_G cfg HE)
                   (sym_w_ok PosTG (fun d p HP => proj2 HP) (proj2 HU)) s p sk pv v d acc c (engine_sd_TS s HS) HC HO HR)).
 Qed.
+
+(* C16 for these configurations of the dedup-capable model: the state left by a call cancelled anywhere is an engine state again *)
+Theorem cancel_preserves_soundness_d : forall s cfg k dedup p sk r, engine_sd s -> c_nonull cfg = true -> builtin_eval cfg -> ask_sd cfg p ->
+  analyze_gen_d gen_basis cfg k dedup s p = (sk, r) ->
+  forall cfg' k' dedup' p' sk' pv v d acc c, c_nonull cfg' = true -> builtin_eval cfg' -> ask_sd cfg' p' ->
+    analyze_gen_d gen_basis cfg' k' dedup' sk p' = (sk', (pv, v, d, acc, c)) -> sound_verdict gen_basis p' v.
+Proof.
+  intros s cfg k dedup p sk r HS HN HE HA HR cfg' k' dedup' p' sk' pv v d acc c HN' HE' HA' HR'.
+  exact (analyze_d_sound_any_inst sk cfg' k' dedup' p' sk' pv v d acc c (engsd_call s cfg k dedup p sk r HS HN HE HA HR) HN' HE' HA' HR').
+Qed.
 End InstSD.
